@@ -521,6 +521,69 @@ func match1(n *Node, t any) bool {
 	return false
 }
 
+// WhyNot names the first reason for which a tree does not match the
+// reference below its top node: "key" (a member is missing while there is a
+// member the reference does not have: it is spelled differently), "absent" (a
+// member that has to be there is missing, and nothing else is there in its
+// place), "extra" (a member the reference does not have, nothing missing),
+// "shape" (another kind of node, another number of elements), "value" (a leaf
+// with another value). "" when the tree matches. Two defects that give the same
+// kind of wrong value at the top (an array, an object) can then be told apart.
+func WhyNot(n *Node, t any) string {
+	if Match(n, t) {
+		return ""
+	}
+	switch n.Kind {
+	case 'a':
+		a, ok := t.([]any)
+		if !ok || len(a) != len(n.Elems) {
+			return "shape"
+		}
+		for i, e := range n.Elems {
+			if w := WhyNot(e, a[i]); w != "" {
+				return w
+			}
+		}
+	case 'o':
+		m, ok := t.(map[string]any)
+		if !ok {
+			return "shape"
+		}
+		missing, seen := 0, 0
+		for _, mem := range n.Members {
+			if _, has := m[mem.Key]; has {
+				seen++
+			} else if mem.Pres == Must {
+				missing++
+			}
+		}
+		stray := len(m) - seen
+		switch {
+		case missing > 0 && stray > 0:
+			return "key"
+		case missing > 0:
+			return "absent"
+		case stray > 0:
+			return "extra"
+		}
+		for _, mem := range n.Members {
+			if v, has := m[mem.Key]; has {
+				if w := WhyNot(mem.Val, v); w != "" {
+					return w
+				}
+			}
+		}
+	default:
+		if _, isA := t.([]any); isA {
+			return "shape"
+		}
+		if _, isM := t.(map[string]any); isM {
+			return "shape"
+		}
+	}
+	return "value"
+}
+
 // Agree reports whether two normalised trees make the same choices wherever
 // the reference requires the encoders to agree: members marked OptFree and
 // alternatives of one node are ignored, everything else has to be equal.
